@@ -154,14 +154,27 @@ def run(ctx):
     ctx.cov["table_op_histogram"] = hist
     # (b)+(c) traces of real runs through the routing model, bindings
     tr = tracelib.run_selout_traces(ctx)
-    ctx.cov["evaluations"] = evals + tr["evaluations"]
-    ctx.cov["distinct_nontrivial"] = len(distinct) + tr["distinct"]
-    ctx.cov["traces_validated_against_impl"] = tr["evaluations"]
+    # (d) histories: several calls with DIFFERENT inputs on one instance (persistent definitions, switch and file state),
+    #     judged by the Lean history model, the open/heading schedule model, the format-selection model and the binding model
+    th = {"evaluations": 0, "distinct": 0}
+    if not ctx.violations:
+        th = tracelib.run_histories(ctx, ctx.build_harness("ph_trace"), ctx.n(30, 500) if ok else 300)
+    ctx.cov["evaluations"] = evals + tr["evaluations"] + th["evaluations"]
+    ctx.cov["distinct_nontrivial"] = len(distinct) + tr["distinct"] + th["distinct"]
+    ctx.cov["traces_validated_against_impl"] = tr["evaluations"] + th["evaluations"]
     ctx.cov["rule"] = ("(a) seeded random op sequences (push of 5 VAR kinds over up to 18 headings incl. empty/UTF-8/long, endrow, "
                        "clear, get incl. negative/out-of-range) on the real CSelectedOutput, full dump compared with the Lean "
                        "model after the sequence and at random points; distinct = distinct op lists. (b) real runs with "
                        "0..4 SELECTED_OUTPUT/USER_PUNCH blocks under random switch states; the recorded punch events are "
-                       "replayed through Model/Route; distinct = distinct (input, switch) pairs with at least one data row.")
+                       "replayed through Model/Route; distinct = distinct (input, switch) pairs with at least one data row. "
+                       "(d) histories of 2..5 calls with different inputs (definitions made once and kept, redefined in later calls "
+                       "or later simulations, USER_PUNCH redefinition, PRINT -selected_output, calls stopped by errors, custom file "
+                       "names), switches flipped and the current number moved between calls: every call is judged by the Lean "
+                       "history model (file content carried across calls, streams attached by punch_open), by the open/heading "
+                       "schedule model driven from an independent reading of the input texts, by the format-selection model on "
+                       "every punched value, and the C / C++ / Value2 / Fortran accessors are compared cell by cell (incl. "
+                       "out-of-range, unknown numbers, buffers shorter than the value) with the binding model; distinct = "
+                       "distinct (call input, switch state, position) triples.")
     if not ok and not ctx.violations:
         ctx.violation("proof obligation of C05 no longer checks and no failing input was found",
                       {"broken": ctx.proof_broken}, found_input=False)
@@ -181,6 +194,9 @@ def replay(ctx, data):
         print("replay result:", res)
         if res is not None:
             ctx.violation("replayed op sequence still disagrees", data)
+    elif data.get("kind") == "history":
+        ctx.prove(["PhreeqcVerif.Properties.C05", "PhreeqcVerif.Properties.Route"])
+        tracelib.replay_history(ctx, data)
     else:
         tracelib.replay(ctx, data)
 
